@@ -5,7 +5,8 @@ open DFV
 
 /-- an integer-cornered 2-d region (0,0)–(2,1) in 4×2 cells of size ½, a float-cornered
 subregion with fractional corners (½,0)–(3/2,1), an overlapping integer-cornered one,
-renamed dims/units, periodic bc, complex data with two labels -/
+renamed dims/units, periodic bc, complex data with two labels; the two invalid cells hold
+NaN / inf / −0 patterns -/
 def exField : TFld :=
   { mesh := { region := { pmin := .ints [0, 0], pmax := .ints [2, 1], dims := ["a", "t"], units := ["nm", "s"],
                           tol := .float (1/1000) },
@@ -15,26 +16,53 @@ def exField : TFld :=
                        ("r", { pmin := .ints [0, 0], pmax := .ints [1, 1], dims := ["a", "t"], units := ["nm", "s"],
                                tol := .float (1/1000) })] },
     nvdim := 2,
-    data := { shape := [4, 2, 2], buf := .complexes ((List.range 16).map fun (k : Nat) => ((k : Rat) / 4, -(k : Rat))) },
+    data := { shape := [4, 2, 2],
+              buf := .complexes ((List.range 16).map fun (k : Nat) =>
+                if k = 2 then (FV.nan true 7, FV.inf false) else if k = 9 then (FV.negZero, FV.inf true)
+                else (FV.fin ((k : Rat) / 4), FV.fin (-(k : Rat)))) },
     valid := { shape := [4, 2], buf := [true, false, true, true, false, true, true, true] },
     vdims := some ["p", "None"],
     vmap := [("p", "a"), ("None", "t")],
     unit := some "A/m" }
 
-/-- an all-float field meeting the hypotheses of the exact round trip -/
+/-- an all-float field meeting the hypotheses of the exact round trip (an invalid cell holding a NaN) -/
 def exFloat : TFld :=
   { mesh := { region := { pmin := .floats [-1/4], pmax := .floats [5/4], dims := ["x"], units := ["m"],
                           tol := TReg.defaultTol },
               n := [3], bc := "",
               subs := [("core", { pmin := .floats [1/4], pmax := .floats [3/4], dims := ["x"], units := ["m"],
                                   tol := TReg.defaultTol })] },
-    nvdim := 1, data := { shape := [3, 1], buf := .floats [1/2, -3, 7/8] },
+    nvdim := 1, data := { shape := [3, 1], buf := .floats [.fin (1/2), .fin (-3), .nan false 1] },
     valid := { shape := [3], buf := [true, true, false] },
     vdims := none, vmap := [], unit := none }
+
+/-- three components on a 1-d mesh without labels (`vdims=[]`): the D34 class -/
+def exNoLabels : TFld :=
+  { exFloat with nvdim := 3, data := { shape := [3, 3], buf := .floats ((List.range 9).map fun (k : Nat) => FV.fin k) } }
+
+/-- integer data, one entry beyond 2^53 -/
+def exBigInt : TFld :=
+  { exFloat with data := { shape := [3, 1], buf := .ints [5, 2 ^ 53 + 1, -7] } }
 
 /-- a legacy file meeting the hypotheses of `legacy_read` (p1/p2 unordered, int data) -/
 def exLegacy : Legacy :=
   { p1 := .floats [2, 0], p2 := .floats [0, 1], n := [2, 1], dim := 3,
     array := { shape := [2, 1, 3], buf := .ints [1, 2, 3, 4, 5, 6] }, sidecar := none }
+
+/-- the same file with the corners of the first axis exchanged and integer-typed `p2` -/
+def exLegacySwapped : Legacy :=
+  { exLegacy with p1 := .floats [0, 0], p2 := .ints [2, 1] }
+
+/-- … and with a side-car holding one box (first cell), int/float corners mixed -/
+def exLegacySide : Legacy :=
+  { exLegacy with sidecar := some [("left", { pmin := .ints [0, 0], pmax := .floats [1, 1], dims := ["u", "v"],
+                                              units := ["nm", "nm"], ndim := 2, tol := .float (1/1000) })] }
+
+/-- a history of slot writes into a 3-slot series created for `exFloat`: slot 1, slot −1 (= 2),
+slot 1 again -/
+def exWrites : List (Int × TFld) :=
+  [(1, { exFloat with data := { shape := [3, 1], buf := .floats [.fin 1, .fin 2, .fin 3] } }),
+   (-1, { exFloat with data := { shape := [3, 1], buf := .floats [.negZero, .inf true, .fin 9] } }),
+   (1, { exFloat with data := { shape := [3, 1], buf := .ints [4, 5, 6] } })]
 
 end DFV.C10
